@@ -154,12 +154,14 @@ def choose_op(rng, topo, st):
         ds = [i for i in held_alive if nodes[i]["kind"] not in ("source",)]
         pairs = [(u, d) for u in us for d in ds if u != d and d not in topo.downs[u] and u not in topo.ups[d] and not topo.reaches(d, u)]
         if pairs:
-            u, d = rng.choice(pairs)
+            comb = [p for p in pairs if nodes[p[1]]["kind"] in ("zip", "combine_latest")]
+            u, d = rng.choice(comb if comb and rng.random() < 0.7 else pairs)
             return {"op": "connect", "up": u, "down": d}
     if r < 0.88:
         edges = [(u, d) for u in held_alive for d in topo.downs[u] if d in topo.held]
         if edges and rng.random() < 0.93:
-            u, d = rng.choice(edges)
+            comb = [e for e in edges if nodes[e[1]]["kind"] in ("zip", "combine_latest")]
+            u, d = rng.choice(comb if comb and rng.random() < 0.6 else edges)
             return {"op": "disconnect", "up": u, "down": d}
         if len(held_alive) >= 2 and rng.random() < 0.5:
             u, d = rng.sample(held_alive, 2)
@@ -325,6 +327,13 @@ def oracle(case, obs):
 
 
 CORPUS = [
+    # combine_latest with the default emit_on: remove one input, connect a new one, data from the new input must trigger emissions
+    {"mode": "sync", "nodes": [{"kind": "source", "ups": []}, {"kind": "source", "ups": []}, {"kind": "source", "ups": []},
+                               {"kind": "combine_latest", "ups": [0, 1], "emit_on": None}, {"kind": "sink", "mode": "sync", "f": ["id"], "ups": [3]}],
+     "ops": [{"op": "emit", "node": 0, "val": 1, "md": []}, {"op": "links"}, {"op": "emit", "node": 1, "val": 2, "md": []}, {"op": "links"},
+             {"op": "disconnect", "up": 1, "down": 3}, {"op": "links"}, {"op": "connect", "up": 2, "down": 3}, {"op": "links"},
+             {"op": "emit", "node": 2, "val": 3, "md": []}, {"op": "links"}, {"op": "emit", "node": 2, "val": 4, "md": []}, {"op": "links"},
+             {"op": "emit", "node": 0, "val": 5, "md": []}, {"op": "links"}]},
     # recorded finding: removing the only empty input of a zip leaves it stuck
     {"mode": "sync", "nodes": [{"kind": "source", "ups": []}, {"kind": "source", "ups": []}, {"kind": "source", "ups": []},
                                {"kind": "zip", "ups": [0, 1, 2], "literals": []}, {"kind": "sink", "mode": "sync", "f": ["id"], "ups": [3]}],
@@ -390,8 +399,78 @@ def rerun(case):
     return obs
 
 
+def reentrant_sample(ctx, n):
+    """Edits made from inside a consumer's callback while its upstream is in the middle of an emission (a one-shot sink
+    destroying itself, a control sink disconnecting a sibling, a consumer attaching a new branch).  Oracle only (the model
+    has no edits inside an emission): emit must not raise, and every branch that was attached before the emission and is
+    still attached after it has received the element; afterwards deliveries follow the edited topology."""
+    from streamz import Stream
+    rng = ctx.rng
+    for i in range(n):
+        k = rng.randint(2, 5)
+        src = Stream()
+        up = src if rng.random() < 0.5 else src.map(lambda x: x)
+        got = {j: [] for j in range(k)}
+        sinks = []
+        actor = rng.randrange(k)
+        action = rng.choice(["destroy-self", "disconnect-sibling", "attach-new", "destroy-sibling"])
+        victim = rng.choice([j for j in range(k) if j != actor])
+        marker = rng.randint(1, 3)
+        late = []
+        state = {"done": False}
+
+        def make(j):
+            def f(x):
+                got[j].append(x)
+                if j == actor and x == marker and not state["done"]:
+                    state["done"] = True
+                    if action == "destroy-self":
+                        sinks[actor].destroy()
+                    elif action == "disconnect-sibling":
+                        up.disconnect(sinks[victim])
+                    elif action == "destroy-sibling":
+                        sinks[victim].destroy()
+                    else:
+                        late.append(up.sink(lambda y: got.setdefault("new", []).append(y)))
+            return f
+        for j in range(k):
+            sinks.append(up.sink(make(j)))
+        case = {"reentrant": True, "k": k, "actor": actor, "action": action, "victim": victim, "marker": marker, "via_map": up is not src}
+        ctx.case(case, nontrivial=True)
+        ctx.count("reentrant:" + action)
+        err = None
+        for x in range(5):
+            try:
+                src.emit(x)
+            except Exception as e:  # noqa: BLE001
+                err = "%s on emit(%d)" % (type(e).__name__, x)
+                break
+        if err:
+            ctx.failure("reentrant-edit-raises", "an edit made from a consumer callback during the emission made emit fail: %s (%s)" % (err, action), case)
+            continue
+        removed = {"destroy-self": actor, "disconnect-sibling": victim, "destroy-sibling": victim}.get(action)
+        for j in range(k):
+            want = list(range(5))
+            if j == removed:
+                # the removed branch may or may not see the marker element itself (snapshot semantics), nothing after it
+                ok = got[j] in (list(range(marker + 1)), list(range(marker)))
+            else:
+                ok = got[j] == want
+            if not ok:
+                ctx.failure("reentrant-edit-delivery", "branch %d received %r after %s at element %d (removed branch: %r)" % (j, got[j], action, marker, removed), case)
+                break
+        if action == "attach-new" and got.get("new") not in (list(range(marker + 1, 5)), list(range(marker, 5))):
+            ctx.failure("reentrant-edit-delivery", "the branch attached during element %d received %r" % (marker, got.get("new")), case)
+        for s_ in sinks + late:
+            try:
+                s_.destroy()
+            except Exception:  # noqa: BLE001
+                pass
+
+
 def run(ctx):
     ctx.audit()
+    reentrant_sample(ctx, 40 if not ctx.thorough() else 800)
     n = 300 if not ctx.thorough() else 10000
     batch = []
     for c in CORPUS:
@@ -423,5 +502,9 @@ def run(ctx):
 def replay(ctx, data):
     ctx.audit()
     case = data["case"]
+    if case.get("reentrant"):
+        reentrant_sample(ctx, 40)
+        ctx.coverage["rule"] = "replay: re-entrant edit sample"
+        return
     evaluate(ctx, case, rerun(case), common.lean_driver("Graph", graphcheck.model_lines(case)))
     ctx.coverage["rule"] = "replay of one recorded case"
